@@ -27,6 +27,9 @@ def extra(ctx: Ctx, sweep: dict) -> None:
     """dump side: documented outer form / the three debug_trail dumpers agree (spec/Dump.tla, MC_Dump.tla)"""
     from ..dumpsweep import report_dump, run_dump_sweep
     report_dump(ctx, run_dump_sweep(ctx), "C06")
+    from ..layoutreplay import report as report_layout, run_slices
+    total = run_slices(ctx, ["A", "C", "D", "E"] if ctx.tier == "quick" else ["A", "B", "C", "D", "E", "F"], {"F": 2})
+    report_layout(ctx, total, "C06")
 
 
 def replay(path: str) -> int:
